@@ -1669,6 +1669,9 @@ func cleanDataConditions(dcs *[]DataCondition) bool {
 			if ae.Regex != be.Regex {
 				return ae.Regex < be.Regex
 			}
+			if ae.ConverterName != be.ConverterName {
+				return ae.ConverterName < be.ConverterName
+			}
 			for j := 0; j < len(ae.Variables) && j < len(be.Variables); j++ {
 				aev, bev := ae.Variables[j], be.Variables[j]
 				if aev.Position != bev.Position {
@@ -1702,6 +1705,9 @@ outer:
 				continue outer
 			}
 			if ae.Regex != be.Regex {
+				continue outer
+			}
+			if ae.ConverterName != be.ConverterName {
 				continue outer
 			}
 			for j := 0; j < len(ae.Variables) && j < len(be.Variables); j++ {
